@@ -25,7 +25,10 @@ Definition api_check_hist (s : src) (ops : list hop) (ans ref : list answer) : N
 
 Definition api_check_pair (prop : N) (a : src) (opsa : list hop) (b : src) (opsb : list hop)
            (relaxed : bool) (o : pair_obs) : N :=
-  if prop =? 13 then chk_C13 a b relaxed o
+  if prop =? 13 then
+    (* domain: one content per OriginalSource name (found while proving that chk_C13 accepts the
+       model: CompWarmLaws.cached_law_contents_counterexample) *)
+    (if negb (names_determine_content (originals a ++ originals b)) then 100 else chk_C13 a b relaxed o)
   else if prop =? 14 then chk_C14_pair a b o
   else if prop =? 20 then chk_C20_pair a b o
   else 100.
